@@ -370,8 +370,8 @@ class __Class(_pre.Pregex):
         If this instance is a regular class, then converts it to its negated counterpart. \
         If this instance is a negated class, then converts it to its regular counterpart.
         '''
-        s, rs = '' if self.__is_negated else '^', '^' if self.__is_negated else ''
-        return __class__(f"[{s}{self.__verbose.lstrip('[' + rs).rstrip(']')}]", not self.__is_negated)
+        s, start = ('', 2) if self.__is_negated else ('^', 1)
+        return __class__(f"[{s}{self.__verbose[start:-1]}]", not self.__is_negated)
 
 
     def __or__(self, pre: '__Class' or str) -> '__Class':
